@@ -179,6 +179,7 @@ EDITS = {
         ("dt04", "crates/lib/plugins/mimium-audiodriver/src/backends/local_buffer.rs", "            let _ = vmdata.run_dsp(Time(now));", "            let _ = vmdata.run_dsp(Time(now + 1));", "verus", "dsp_tick"),
         ("dt05", "crates/lib/plugins/mimium-audiodriver/src/driver.rs", "                let _ = plug.on_sample(time, &mut self.vm);", "                let _ = plug.on_sample(Time(time.0.saturating_sub(1)), &mut self.vm);", "verus", "dsp_tick"),
         ("hf02", "crates/lib/mimium-lang/src/compiler/bytecodegen.rs", "                    let pos = funcproto.add_new_constant(gen_raw_float(&n));\n                    Some(VmInstruction::MoveConst(dst, pos as ConstPos))", "                    let pos = funcproto.add_new_constant(gen_raw_float(&n));\n                    Some(VmInstruction::MoveConst(dst, (pos + 1) as ConstPos))", "verus", "float_imm"),
+        ("hf04", "crates/lib/mimium-lang/src/runtime/vm.rs", "                    self.set_stack(dst as i64, Self::to_value(Into::<f64>::into(v)));", "                    self.set_stack(dst as i64 + 1, Self::to_value(Into::<f64>::into(v)));", "verus", "float_imm"),
         ("hf01", "crates/lib/mimium-lang/src/utils/half_float.rs", "        let hv = f16::from_f64(value);", "        let hv = f16::from_f64(value);\n        let value = value + 1.0;", "verus", "float_imm"),
         ("sc01", SCH + "scheduler.rs", "Some(Reverse(Task { when, closure })) if *when <= now => {", "Some(Reverse(Task { when, closure })) if *when < now => {", "verus", "scheduler"),
         ("sc02", SCH + "scheduler.rs", "self.when.cmp(&other.when)", "self.closure.cmp(&other.closure)", "both", "scheduler"),
